@@ -91,6 +91,11 @@ CALL_FORMS = {
 }
 
 
+# classes whose read(istream&) takes the text "(z, <p>)": also driven with truncated / malformed texts (event fN:q, q = P + 4 * variant)
+FAILED_READ = ("Modular<int32_t>", "Modular<uint32_t>", "Modular<int64_t>", "Modular<uint64_t>", "Modular<float>", "Modular<double>", "Modular<int16_t>", "Modular<uint16_t>",
+               "Modular<Integer>", "Modular<Log16>")
+
+
 def iso_ok(cls, q):
     q = base_q(cls, q)
     return cls not in NON_ISO or (q >> 2) in DET_VARIANTS.get(cls, ())
@@ -348,7 +353,7 @@ def structural_c16(chk, descs):
                            "members %s are not" % ",".join(sorted(not_assigned)), "assignment map extracted from the source")
         if bad_rc:
             rc = d.get("rc") or {}
-            klass = "refcount:" + ("copy-does-not-count" if not rc.get("copy_incs") else "destructor-does-not-release" if not (rc.get("destroy_decs") and rc.get("destroy_frees")) else str(rc.get("assign_order")))
+            klass = "refcount:" + ("counter-narrower-than-int" if not rc.get("counter_wide", True) else "copy-does-not-count" if not rc.get("copy_incs") else "destructor-does-not-release" if not (rc.get("destroy_decs") and rc.get("destroy_frees")) else str(rc.get("assign_order")))
             chk.fail_input("%s::refcount-protocol" % name, klass, {"class": name, "rc": rc, "shared": d.get("shared_heap_members")},
                            "shared heap parts are reference-counted so that no live object ever refers to a freed block (Refcount.refcount_safe)",
                            "protocol extracted from the source is not accepted: %s" % klass, "C16_unguarded_assign_refuted / C16_uncounted_copy_refuted exhibit the failing history")
@@ -510,6 +515,8 @@ def category(ev, obj):
         return "destroy-other"
     if k == "s":
         return "mutate" if n == obj else "mutate-other"
+    if k == "f":
+        return "failed-mutate" if n == obj else "failed-mutate-other"
     return "use" if n == obj else "use-other"
 
 
@@ -554,6 +561,27 @@ def check_history(chk, cls, hist, steps, crash, iso):
             if iso.get((cls, base_q(cls, p))):
                 base = dict(iso[(cls, base_q(cls, p))])         # deterministic construction: the reference is the isolated process (without recycling of the arguments)
             ref[n] = (p, base)
+        elif k == "f":
+            # read() from a TRUNCATED / malformed text: the object must either be unchanged (old parameters) or be entirely the object of the
+            # new parameters; a half-updated object is a failing input
+            p = int(ev[3:]) & 3
+            now = objs.get(n, {})
+            old = ref.get(n)
+            new = iso.get((cls, p))
+            same = lambda exp: exp is not None and all(exp.get(pt) == h for pt, h in now.items() if h is not None and exp.get(pt) is not None)
+            if old is not None and same(old[1]):
+                pass
+            elif same(new):
+                ref[n] = (p, dict(new))
+            elif old is not None:
+                bad = next((pt for pt, h in now.items() if h is not None and old[1].get(pt) not in (None, h)), "?")
+                if (cls, "failed-mutate") not in reported:
+                    reported.add((cls, "failed-mutate"))
+                    chk.fail_input("history:%s:%s" % (cls, bad), "after-failed-mutate",
+                                   {"class": cls, "history": hist, "event_index": idx, "event": ev, "object": n, "old_param": old[0], "new_param": p, "text_variant": int(ev[3:]) >> 2},
+                                   "probe of the old parameters (object unchanged) or of the new parameters", now.get(bad),
+                                   "after read() of a truncated / malformed text the object is neither the old nor the new one: half-updated (replay: echo '%s %s' | C16_VERBOSE=1 c16_history)" % (cls, hist))
+                ref.pop(n, None)
         elif k == "s":
             p = int(ev[3:])              # re-parameterised in place: from now on a fresh object of parameter set p
             ref[n] = (p, dict(iso.get((cls, p)) or objs.get(n, {})))
@@ -978,6 +1006,9 @@ def run_histories(chk, rng, tier, classes=None):
     chk.cov["cross_class_histories"] = len(cross)
     chk.cov["cross_class_combinations"] = sorted(set(c for c, h in cross))[:40]
     chk.cov["constructor_histories_per_class"] = nct
+    fm = ["c0:%d f0:%d u0" % (a, b + 4 * t) for t in (0, 2, 3) for a, b in ((0, 1), (1, 0), (2, 3))] + ["c0:0 k1:0 f1:%d u1 u0 s1:2 u1" % (1 + 4 * t) for t in (0, 2, 3)]          # (variant 1, a missing comma, makes read() take "01" as the modulus: garbage in, a consistent ring modulo 1)
+    want += [(c, h) for c in classes if c in FAILED_READ for h in fm]
+    chk.cov["failed_read_histories_per_class"] = len(fm)
     chk.cov["mutator_histories_per_class"] = len(mh)
     chk.cov["classes_with_mutator"] = [c for c in classes if c in MUTABLE]
     out, bad = run_parallel(hb, ["%s %s\n" % (c, h) for c, h in want], jobs=6 if tier == "quick" else 12)
